@@ -142,7 +142,7 @@ func replayOne(id int, b *behaviour, engine string) common.Result {
 			lastInst = "inst[" + declKey(d) + via + "];"
 			sh := ug.Shape{Mem: "imp", MemLim: ug.Limits{Min: d.Mem[0], Max: d.Mem[1]}, Tab: "imp", TabLim: ug.Limits{Min: d.Tab[0], Max: d.Tab[1]},
 				TabType: d.TabType, G: "imp", GType: d.GType, GMut: d.GMut, H: "imp", K: true, KMut: d.KMut, Inc: "imp", IncSig: d.IncSig, Start: d.Start, TailCall: true,
-				Reexport: s.Reexp, FuncLast: s.Reexp}
+				Reexport: s.Reexp, FuncLast: s.Reexp, GAlias: d.GType == "i32" && d.GMut}
 			if s.Via != 0 {
 				sh.From = fmt.Sprintf("b%d", s.Via)
 			}
@@ -226,7 +226,7 @@ func replayOne(id int, b *behaviour, engine string) common.Result {
 			}
 			var args []uint64
 			switch s.Op {
-			case "gset", "ld", "mgrow", "tnull", "tisnull", "tcall", "trcall", "tgrow":
+			case "gset", "ld", "mgrow", "tnull", "tisnull", "tcall", "trcall", "tgrow", "galias":
 				args = []uint64{uint64(uint32(s.X))}
 			case "st", "tset":
 				args = []uint64{uint64(uint32(s.X)), uint64(uint32(s.Y))}
